@@ -19,6 +19,9 @@ func vfC37Fuzz(f *testing.F, reader string) {
 			f.Add(s.Data[:len(s.Data)-3], byte(3))
 		}
 	}
+	for _, c := range vfC37HostileCases(reader, false) { // structure-aware hostile length fields
+		f.Add(c.Data, byte(0))
+	}
 	f.Fuzz(func(t *testing.T, data []byte, mode byte) {
 		if len(data) > 1<<16 {
 			t.Skip("inputs above 64 KiB add nothing")
